@@ -185,6 +185,13 @@ func runCase(m *Model, c Case) []Diff {
 
 // runCaseR also returns the real code's canonical result.
 func runCaseR(m *Model, c Case) ([]Diff, string) {
+	orig := c.Exts
+	c.Exts = ownExts(orig)
+	d, r := runCaseR1(m, c)
+	return append(d, extsDiff(orig, c.Exts)...), r
+}
+
+func runCaseR1(m *Model, c Case) ([]Diff, string) {
 	switch c.Kind {
 	case "out":
 		opts := fmtOpts(c.Fmt)
